@@ -5,7 +5,7 @@ x (reference automaton built from the pattern's AST) x (domain tracker) is explo
 reachable state must satisfy  in_domain => (impl accepts <=> reference accepts).  This decides the property
 for all names of all lengths.  Every explored state's shortest witness is replayed on the public API.
 """
-from .. import bind, run, pat, ref_aut, impl, alphabet, product, sre_aut
+from .. import bind, run, pat, ref_aut, impl, alphabet, product, sre_aut, langcmp
 from wcmatch import fnmatch as F
 
 ID = 'C01'
@@ -87,6 +87,14 @@ def check_instance(seq, fs, res, api_level=1, is_bytes=False):
                 acc_in += 1
             else:
                 rej_in += 1
+        # the matcher applies its regex lists to the whole name: the same witness followed by a newline
+        tn = t + (b'\n' if is_bytes else '\n')
+        truth = langcmp.regex_accepts(m, tn)
+        res.n['traces_validated_against_impl'] += 1
+        if bool(m.match(tn)) != truth:
+            res.add_violation(ID, run.viol('matcher-application', {'pattern': ptext, 'flags': fs, 'name': tn}, {'match': truth},
+                                           {'match': bool(m.match(tn))}))
+            return
     if acc_in and rej_in:
         res.n['distinct_nontrivial'] += 1
     res.outcomes.add('agree' if not bad else 'disagree')
@@ -230,6 +238,10 @@ def replay(v):
             return {'violates': False, 'observed': 'compiles'}
         except Exception as e:  # noqa: BLE001
             return {'violates': True, 'observed': type(e).__name__}
+    if v['kind'] == 'matcher-application':
+        m = F.compile(p, flags=flags)
+        got, truth = bool(m.match(inp['name'])), langcmp.regex_accepts(m, inp['name'])
+        return {'violates': got != truth, 'observed': {'match': got}}
     got = F.fnmatch(inp['name'], p, flags=flags)
     got2 = bool(F.filter([inp['name']], p, flags=flags))
     got3 = F.compile(p, flags=flags).match(inp['name'])
